@@ -64,11 +64,14 @@ SOURCES = ["config_file", "contract_annotation", "function_annotation", "command
 
 def layer_st():
     names = sorted(OPTS)
+    # a layer may also carry explicit None entries (= "not set here"), which is what
+    # vars(argparse.Namespace) hands to with_overrides for every option absent from the command line
     return st.builds(
-        lambda src, ks, vals: [src, {k: vals[k] for k in ks}],
+        lambda src, ks, vals, nones: [src, {**{k: None for k in nones if k not in ks}, **{k: vals[k] for k in ks}}],
         st.sampled_from(SOURCES),
         st.lists(st.sampled_from(names), min_size=1, max_size=5, unique=True),
         st.fixed_dictionaries({k: OPTS[k] for k in names}),
+        st.one_of(st.just([]), st.lists(st.sampled_from(names), max_size=6, unique=True), st.just(names)),
     )
 
 
